@@ -135,7 +135,8 @@ Inductive fin := RNil | RErr (v : errval) | RPanic | RGoexit.
 Inductive berr :=
 | BUser (v : errval)        (* an error of its own *)
 | BStmt (k : Z) (v : errval) (* the driver's error of its k-th step *)
-| BCtx (k : Z)      (* context.Canceled from the k-th step *)
+| BCtx (k : Z) (dl : bool)  (* the context's error from the k-th step: context.Canceled, or
+                               context.DeadlineExceeded when the context ended by its deadline *)
 | BTxDone (k : Z)   (* sql.ErrTxDone from the k-th step *)
 | BNest (k : Z)     (* errCantNestTx *)
 | BSelfC (k : Z) (v : errval)   (* the driver's Commit error, from its own Commit *)
@@ -147,7 +148,8 @@ Inductive bout := BNil | BErr (b : berr) | BPanic | BGoexit.
 (* one transaction: the call and its body *)
 Record script := mkScript
   { sctxapi : bool;       (* TransactCtx: the body's context is the caller's (Transact: Background) *)
-    sdead : bool;         (* that context is already cancelled when TransactCtx is called *)
+    sdead : bool;         (* that context is already done when TransactCtx is called *)
+    sdl : bool;           (* it ends by its deadline (context.DeadlineExceeded), not by cancellation *)
     sbrk : bool;          (* the breaker lets the call through (observed) *)
     sopen : bool;         (* connProv succeeds *)
     sconn : Z;            (* the connection that serves Begin (observed) *)
@@ -164,7 +166,7 @@ Inductive ecause :=
 Inductive err :=
 | ENil
 | EUnavailable                 (* breaker.ErrServiceUnavailable *)
-| ECanceled                    (* ctx.Err() of an already cancelled context *)
+| ECtxDone (dl : bool)         (* ctx.Err() of a context that is already done: Canceled / DeadlineExceeded *)
 | ENoConn                      (* connProv's error *)
 | EBegin (v : errval)          (* the driver's Begin error *)
 | EBody (b : berr)             (* exactly the error value the body returned *)
@@ -197,7 +199,7 @@ Definition res_of (k : Z) (o : outcome) (v : errval) : sres :=
 
 (* [sees]: the statement is issued with the caller's context (TransactCtx and a ...Ctx method);
    result, driver calls, rest of the script, context cancelled meanwhile *)
-Definition do_stmt (t : nat) (cn : Z) (k : Z) (m : meth) (sees : bool) (orc : list reply)
+Definition do_stmt (t : nat) (cn : Z) (k : Z) (m : meth) (sees dl : bool) (orc : list reply)
   : sres * list logent * list reply * bool :=
   match m with
   | MExec => let '(o, v, c, l, orc1) := drv t cn (CStmt k KExec) orc in (res_of k o v, l, orc1, c)
@@ -207,7 +209,7 @@ Definition do_stmt (t : nat) (cn : Z) (k : Z) (m : meth) (sees : bool) (orc : li
     match o with
     | OOk =>
       (* PrepareContext came back; Stmt.ExecContext with a context that is done by now is refused *)
-      if sees && c then (SErr (BCtx k), l, orc1, c)
+      if sees && c then (SErr (BCtx k dl), l, orc1, c)
       else let '(o2, v2, c2, l2, orc2) := drv t cn (CStmt k KStmtExec) orc1 in
            (res_of k o2 v2, l ++ l2, orc2, c || c2)
     | _ => (SErr (BStmt k v), l, orc1, c)
@@ -232,9 +234,9 @@ Definition do_action (t : nat) (sc : script) (k : Z) (a : action) (canc done : b
   (orc : list reply) : aout :=
   match a with
   | AStmt m withctx =>
-    if sctxapi sc && withctx && canc then (SErr (BCtx k), [], orc, canc, done, false)
+    if sctxapi sc && withctx && canc then (SErr (BCtx k (sdl sc)), [], orc, canc, done, false)
     else if done then (SErr (BTxDone k), [], orc, canc, done, false)
-    else let '(r, l, orc1, c) := do_stmt t (sconn sc) k m (sctxapi sc && withctx) orc in
+    else let '(r, l, orc1, c) := do_stmt t (sconn sc) k m (sctxapi sc && withctx) (sdl sc) orc in
          (r, l, orc1, canc || c, done, false)
   | ANest => (SErr (BNest k), [], orc, canc, done, false)
   | ASelfCommit => do_selfend t (sconn sc) k true canc done orc
@@ -345,7 +347,7 @@ Definition tstep_fin (F : nat -> script -> bool -> bout -> list reply -> qout) (
   match st with
   | TDone _ => (st, [], orc, false)
   | TIdle =>
-    if sdead sc then (TDone (mkRes 0 None (RetErr ECanceled) false), [], orc, false)
+    if sdead sc then (TDone (mkRes 0 None (RetErr (ECtxDone (sdl sc))) false), [], orc, false)
     else if negb (sbrk sc) then (TDone (mkRes 0 None (RetErr EUnavailable) false), [], orc, false)
     else if negb (sopen sc) then (TDone (mkRes 0 None (RetErr ENoConn) false), [], orc, false)
     else
